@@ -2,7 +2,7 @@
    Statements only.  The tables (`types`, `severable_ids`, `steps_prepare`, `hash_table`) are REGENERATED from /repo;
    the interpreter (Suit/Interp.v) is hand-written and tied to the code by the correspondence check. *)
 Require Import Coq.Strings.String.
-From Verif Require Import Base.Prim Base.Str Cbor.Codec Suit.Py Suit.Ty Suit.Interp Suit.Tables Suit.Digest Suit.Typed Suit.TypedObj Suit.Embed gen.GenTypes gen.GenSpec.
+From Verif Require Import Base.Prim Base.Str Cbor.Codec Suit.Py Suit.Ty Suit.Interp Suit.Tables Suit.Digest Suit.Typed Suit.TypedObj Suit.Payload Suit.Embed gen.GenTypes gen.GenSpec.
 Open Scope Z_scope.
 
 (* the order of calls in prepare_suit_data (and in the two other places that prepare an envelope) as extracted from
@@ -64,9 +64,9 @@ Print Assumptions create_digests_correct.
 
 (* BYTE LEVEL: the bytes written are the serialisation of tag 107 over a map whose entry 3 is the deserialisation of
    exactly the bytes mb that were hashed into the authentication wrapper's digest (mb = serialisation of the manifest
-   member under cbstr(SuitManifest) = the byte-string-wrapped manifest).  The side condition — members carried under text keys (integrated payloads / dependencies) really have text keys — is
-   an explicit premise; that the object's members have distinct table indices is PROVED (well-typedness of the tree built
-   from the description, Suit/TypedObj.v). *)
+   member under cbstr(SuitManifest) = the byte-string-wrapped manifest).  NO premise beyond `create ... = Ok out`: that the object's members have distinct table indices follows from the well-typedness of the
+   tree built from the description (Suit/TypedObj.v), and that the maps merged from integrated payloads / dependencies carry no
+   integer key is proved through the byte level (Suit/Payload.v, using the decoder facts of Cbor/DecodeSound.v). *)
 Lemma envelope_root : lookup (s2b "SuitEnvelopeTagged") types = Some (TTag 107 (s2b "SUIT_Envelope_Tagged") (TRef (s2b "SuitEnvelope"))).
 Proof. vm_compute. reflexivity. Qed.
 Definition envelope_members_table : list (bytes * Z * ty) :=
@@ -92,19 +92,32 @@ Proof.
 Qed.
 Print Assumptions created_trees_are_well_typed.
 
+(* the members carried under text keys (integrated payloads / dependencies) are maps from names to byte strings in the
+   regenerated table: with Suit/Payload.v, what such a map deserialises to has no integer key, so merging it into the envelope
+   map cannot overwrite a registered member (this was an explicit premise of the byte-level theorems before) *)
+Lemma envelope_payload_members : forall e, In e envelope_members_table -> key_id e = -1 \/ key_id e = -2 ->
+  exists pn tn hn, key_ty e = TRef pn /\ lookup pn types = Some (TPayloadMap (TRef tn) (TRef hn)) /\ lookup tn types = Some TTstr /\ lookup hn types = Some THex.
+Proof.
+  intros e Hin Hid. unfold envelope_members_table in Hin. vm_compute in Hin.
+  repeat (destruct Hin as [<-|Hin];
+    [cbn [key_id fst snd] in Hid;
+     first [exfalso; destruct Hid as [Hid|Hid]; discriminate Hid
+           |exists (s2b "SuitIntegratedPayloadMap"), (s2b "SuitTstr"), (s2b "SuitHex"); repeat split; vm_compute; reflexivity]|]).
+  destruct Hin.
+Qed.
+
 Theorem digest_is_over_the_embedded_manifest H uuid5 fs jl jd fuel o out :
   create types (map fst hash_table) H uuid5 fs jl jd severable_ids steps_prepare steps_processed steps_digest_ext fuel o = Ok out ->
   exists ents ai j alg h blocks mb,
     to_cbor types fuel (TRef (s2b "SuitEnvelopeTagged")) (VTagged (VKV ents)) = Ok out
     /\ kv_get ents ai = Some (VSeq (VUnion j (VSeq [VRaw alg; VRaw (CBytes h)]) :: blocks))
     /\ hash_of (map fst hash_table) H alg mb = Ok h
-    /\ ((forall f, payloads_text (to_cbor types f) envelope_members_table ents) ->
-        exists c data cm,
+    /\ (exists c data cm,
           dec mb = Ok c /\ dict_get data (cint 3) = Some c /\ dec (ser (CMap data)) = Ok cm /\ out = ser (CTag 107 cm)).
 Proof.
   exact (create_digest_over_embedded_manifest types (map fst hash_table) H uuid5 fs jl jd severable_ids steps_prepare steps_processed steps_digest_ext
            (s2b "SuitEnvelope") (s2b "SUIT_Envelope_Tagged") 107 envelope_members_table envelope_embedded
-           envelope_root envelope_table envelope_ids_distinct types_well_formed (proj1 update_order_in_source) severable_nodup severable_not_2_3 fuel o out).
+           envelope_root envelope_table envelope_ids_distinct types_well_formed (proj1 update_order_in_source) severable_nodup severable_not_2_3 envelope_payload_members fuel o out).
 Qed.
 Print Assumptions digest_is_over_the_embedded_manifest.
 
@@ -120,12 +133,11 @@ Theorem severed_digests_are_over_the_embedded_members H uuid5 fs jl jd fuel o ou
          find_idx (fun x => key_id x =? sid) envelope_members_table O = Some (ei, ee) -> kv_get ents ei = Some ev -> sid <> -1 -> sid <> -2 ->
          exists j alg data h,
            dv = VUnion j (VSeq [VRaw alg; VRaw (CBytes h)]) /\ hash_of (map fst hash_table) H alg data = Ok h
-           /\ ((forall f, payloads_text (to_cbor types f) envelope_members_table ents) ->
-               exists c dmap cm, dec data = Ok c /\ dict_get dmap (cint sid) = Some c /\ dec (ser (CMap dmap)) = Ok cm /\ out = ser (CTag 107 cm)).
+           /\ (exists c dmap cm, dec data = Ok c /\ dict_get dmap (cint sid) = Some c /\ dec (ser (CMap dmap)) = Ok cm /\ out = ser (CTag 107 cm)).
 Proof.
   exact (create_digests_over_embedded_members types (map fst hash_table) H uuid5 fs jl jd severable_ids steps_prepare steps_processed steps_digest_ext
            (s2b "SuitEnvelope") (s2b "SUIT_Envelope_Tagged") 107 envelope_members_table envelope_embedded
-           envelope_root envelope_table envelope_ids_distinct types_well_formed (proj1 update_order_in_source) severable_nodup severable_not_2_3 fuel o out).
+           envelope_root envelope_table envelope_ids_distinct types_well_formed (proj1 update_order_in_source) severable_nodup severable_not_2_3 envelope_payload_members fuel o out).
 Qed.
 Print Assumptions severed_digests_are_over_the_embedded_members.
 
